@@ -1,3 +1,4 @@
+import copy
 import functools
 import collections
 
@@ -66,7 +67,8 @@ def get_new_fields(resource, fields):
             )
             new_fields.append(target)
         elif isinstance:
-            new_fields.append(target)
+            # every resource gets its own field dict (later steps edit descriptors in place)
+            new_fields.append(copy.deepcopy(target))
     return new_fields
 
 
